@@ -1,6 +1,18 @@
 //! Lowering ops (C10): fluent expression trees posted through the real builder API, lowered by the
 //! model's own `prepare_for_search` (hook H2), dumped (variables + `Debug` of every propagator) and
 //! enumerated; the Lean model of the lowering must produce the same dump and the same sequence.
+//!
+//! Two streams: the integer stream (default; `--nonlinear` adds `* / mod` of sub-trees) and the
+//! FLOAT stream (`--float`): float variables (`lw.fvar <lo> <hi>`, f64 bit patterns), float
+//! literals (`f <bits>`) and integer literals in every position of mixed trees, generated around a
+//! witness point (`lw.wit`).  Float cases are dumped (`lw.lower`; every f64 of the `Debug` output is
+//! re-encoded as `f<bits>`), their lowered linear rows are pruned once by the real propagators
+//! (`lw.prune`: ties the model of `IntLin*` over float variables), and solved (`lw.solve`, result
+//! line `-`: oracle only).  Oracle of the float stream: direct evaluation of the trees at the
+//! returned solution / at the witness when `solve()` says NoSolution, three-valued, within the
+//! tolerance of the `#flapi` stream of `float.rs`; failures are tagged with a recorded finding only
+//! when the predicted lowering of the violated tree (integer or float row, nested through views,
+//! auxiliary integer variables) is the one that finding describes.
 use crate::out::{guarded, Out};
 use crate::rng::Rng;
 use selen::prelude::*;
@@ -10,6 +22,8 @@ use selen::runtime_api::{Constraint, ExprBuilder};
 pub enum Ex {
     V(usize),
     K(i32),
+    /// float literal `float(c)`
+    F(f64),
     Add(Box<Ex>, Box<Ex>),
     Sub(Box<Ex>, Box<Ex>),
     Mul(Box<Ex>, Box<Ex>),
@@ -30,6 +44,7 @@ impl Ex {
         match self {
             Ex::V(i) => format!("v {i}"),
             Ex::K(k) => format!("k {k}"),
+            Ex::F(x) => format!("f {}", x.to_bits()),
             Ex::Add(a, b) => format!("+ {} {}", a.tokens(), b.tokens()),
             Ex::Sub(a, b) => format!("- {} {}", a.tokens(), b.tokens()),
             Ex::Mul(a, b) => format!("* {} {}", a.tokens(), b.tokens()),
@@ -42,6 +57,7 @@ impl Ex {
         match self {
             Ex::V(i) => ExprBuilder::from_var(ids[*i]),
             Ex::K(k) => ExprBuilder::from_val(Val::ValI(*k)),
+            Ex::F(x) => ExprBuilder::from_val(Val::ValF(*x)),
             Ex::Add(a, b) => a.build(ids).add(b.build(ids)),
             Ex::Sub(a, b) => a.build(ids).sub(b.build(ids)),
             Ex::Mul(a, b) => a.build(ids).mul(b.build(ids)),
@@ -54,6 +70,7 @@ impl Ex {
         Some(match self {
             Ex::V(i) => a[*i],
             Ex::K(k) => *k as i64,
+            Ex::F(_) => return None,
             Ex::Add(x, y) => x.eval(a)? + y.eval(a)?,
             Ex::Sub(x, y) => x.eval(a)? - y.eval(a)?,
             Ex::Mul(x, y) => x.eval(a)? * y.eval(a)?,
@@ -63,33 +80,51 @@ impl Ex {
     }
     /// the tree the builder's smart constructors produce (constant folding, `*1`, `/1`);
     /// integer/integer division folds to a float: kept unfolded here
-    pub fn fold(&self) -> Ex {
+    pub fn fold(&self) -> Ex { self.fold_with(false) }
+    /// the tree the real builder produces, including `int / int` → float constant
+    pub fn fold_real(&self) -> Ex { self.fold_with(true) }
+    fn fold_with(&self, real: bool) -> Ex {
+        // a constant operand as f64 (mixed `Val` arithmetic)
+        fn cf(e: &Ex) -> Option<f64> { match e { Ex::K(k) => Some(*k as f64), Ex::F(x) => Some(*x), _ => None } }
         match self {
-            Ex::V(_) | Ex::K(_) => self.clone(),
-            Ex::Add(a, b) => match (a.fold(), b.fold()) { (Ex::K(x), Ex::K(y)) => Ex::K(x + y), (x, y) => Ex::Add(Box::new(x), Box::new(y)) },
-            Ex::Sub(a, b) => match (a.fold(), b.fold()) { (Ex::K(x), Ex::K(y)) => Ex::K(x - y), (x, y) => Ex::Sub(Box::new(x), Box::new(y)) },
-            Ex::Mul(a, b) => match (a.fold(), b.fold()) {
+            Ex::V(_) | Ex::K(_) | Ex::F(_) => self.clone(),
+            Ex::Add(a, b) => match (a.fold_with(real), b.fold_with(real)) {
+                (Ex::K(x), Ex::K(y)) => Ex::K(x + y),
+                (x, y) => match (cf(&x), cf(&y)) { (Some(p), Some(q)) => Ex::F(p + q), _ => Ex::Add(Box::new(x), Box::new(y)) },
+            },
+            Ex::Sub(a, b) => match (a.fold_with(real), b.fold_with(real)) {
+                (Ex::K(x), Ex::K(y)) => Ex::K(x - y),
+                (x, y) => match (cf(&x), cf(&y)) { (Some(p), Some(q)) => Ex::F(p - q), _ => Ex::Sub(Box::new(x), Box::new(y)) },
+            },
+            Ex::Mul(a, b) => match (a.fold_with(real), b.fold_with(real)) {
                 (Ex::K(x), Ex::K(y)) => Ex::K(x * y),
+                (x, y) if cf(&x).is_some() && cf(&y).is_some() => Ex::F(cf(&x).unwrap() * cf(&y).unwrap()),
                 (x, Ex::K(1)) => x,
                 (Ex::K(1), y) => y,
                 (x, y) => Ex::Mul(Box::new(x), Box::new(y)),
             },
-            Ex::Div(a, b) => match (a.fold(), b.fold()) { (x, Ex::K(1)) if !matches!(x, Ex::K(_)) => x, (x, y) => Ex::Div(Box::new(x), Box::new(y)) },
-            Ex::Mod(a, b) => Ex::Mod(Box::new(a.fold()), Box::new(b.fold())),
+            Ex::Div(a, b) => match (a.fold_with(real), b.fold_with(real)) {
+                // two constants fold to a FLOAT constant (`real`; `int / int` is kept unfolded for the
+                // integer matchers: the integer model reports such trees as `unsupported`)
+                (x, y) if (real || matches!(x, Ex::F(_)) || matches!(y, Ex::F(_))) && cf(&x).is_some() && cf(&y).is_some() && cf(&y).unwrap().abs() >= f64::EPSILON => Ex::F(cf(&x).unwrap() / cf(&y).unwrap()),
+                (x, Ex::K(1)) if !matches!(x, Ex::K(_)) => x,
+                (x, y) => Ex::Div(Box::new(x), Box::new(y)),
+            },
+            Ex::Mod(a, b) => Ex::Mod(Box::new(a.fold_with(real)), Box::new(b.fold_with(real))),
         }
     }
     pub fn has_divmod(&self) -> bool {
         match self {
-            Ex::V(_) | Ex::K(_) => false,
+            Ex::V(_) | Ex::K(_) | Ex::F(_) => false,
             Ex::Div(..) | Ex::Mod(..) => true,
             Ex::Add(a, b) | Ex::Sub(a, b) | Ex::Mul(a, b) => a.has_divmod() || b.has_divmod(),
         }
     }
     pub fn is_linear(&self) -> bool {
         match self {
-            Ex::V(_) | Ex::K(_) => true,
+            Ex::V(_) | Ex::K(_) | Ex::F(_) => true,
             Ex::Add(a, b) | Ex::Sub(a, b) => a.is_linear() && b.is_linear(),
-            Ex::Mul(a, b) => matches!((&**a, &**b), (Ex::V(_), Ex::K(_)) | (Ex::K(_), Ex::V(_)) | (Ex::K(_), Ex::K(_))),
+            Ex::Mul(a, b) => matches!((&**a, &**b), (Ex::V(_), Ex::K(_) | Ex::F(_)) | (Ex::K(_) | Ex::F(_), Ex::V(_)) | (Ex::K(_), Ex::K(_))),
             _ => false,
         }
     }
@@ -99,12 +134,14 @@ impl Ex {
 fn lin_coeffs(e: &Ex, sign: i64, acc: &mut std::collections::BTreeMap<usize, i64>) -> bool {
     match e {
         Ex::V(i) => { *acc.entry(*i).or_insert(0) += sign; true }
-        Ex::K(_) => true,
+        Ex::K(_) | Ex::F(_) => true,
         Ex::Add(a, b) => lin_coeffs(a, sign, acc) && lin_coeffs(b, sign, acc),
         Ex::Sub(a, b) => lin_coeffs(a, sign, acc) && lin_coeffs(b, -sign, acc),
         Ex::Mul(a, b) => match (&**a, &**b) {
             (Ex::V(i), Ex::K(k)) | (Ex::K(k), Ex::V(i)) => { *acc.entry(*i).or_insert(0) += sign * *k as i64; true }
             (Ex::K(_), Ex::K(_)) => true,
+            // float coefficients: only whether the variable occurs matters to the integer matchers
+            (Ex::V(i), Ex::F(_)) | (Ex::F(_), Ex::V(i)) => { *acc.entry(*i).or_insert(0) += 1 << 40; true }
             _ => false,
         },
         _ => false,
@@ -116,7 +153,7 @@ impl Co {
     pub fn is_all_zero_row(&self) -> bool {
         if let Co::Bin(l, op, r) = self {
             let (l, r) = (&l.fold(), &r.fold());
-            if *op == "eq" && matches!((l, r), (Ex::V(_), Ex::K(_)) | (Ex::K(_), Ex::V(_))) { return false; }
+            if *op == "eq" && matches!((l, r), (Ex::V(_), Ex::K(_) | Ex::F(_)) | (Ex::K(_) | Ex::F(_), Ex::V(_))) { return false; }
             let mut acc = std::collections::BTreeMap::new();
             if l.is_linear() && r.is_linear() && lin_coeffs(l, 1, &mut acc) && lin_coeffs(r, -1, &mut acc) {
                 return acc.values().all(|c| *c == 0);
@@ -178,18 +215,48 @@ impl Co {
     }
 }
 
+#[derive(Clone, Debug)]
+pub enum VarSpec {
+    /// integer variable with this (sorted, duplicate-free) domain
+    I(Vec<i32>),
+    /// float variable `m.float(lo, hi)`
+    F(f64, f64),
+}
+
 #[derive(Clone)]
 pub struct LCase {
-    pub doms: Vec<Vec<i32>>,
+    pub vars: Vec<VarSpec>,
     pub cons: Vec<Co>,
+    /// witness point the float cases are generated around (one value per user variable)
+    pub wit: Option<Vec<f64>>,
+}
+
+impl LCase {
+    fn empty() -> LCase { LCase { vars: vec![], cons: vec![], wit: None } }
+    pub fn is_float_var(&self, i: usize) -> bool { matches!(self.vars.get(i), Some(VarSpec::F(..))) }
+    /// a float variable or a float literal occurs (also one produced by the builder's folding of
+    /// `int / int`): the case is outside the integer model
+    pub fn floaty(&self) -> bool {
+        self.vars.iter().any(|v| matches!(v, VarSpec::F(..))) || self.cons.iter().any(|c| c.has_float_lit())
+    }
+    /// the integer domains (integer-only cases)
+    fn int_doms(&self) -> Vec<Vec<i32>> {
+        self.vars.iter().map(|v| match v { VarSpec::I(d) => d.clone(), VarSpec::F(..) => vec![] }).collect()
+    }
 }
 
 fn build_model(lc: &LCase) -> (Model, Vec<VarId>) {
-    let mut m = Model::default();
+    // float cases are also solved: bounded by a timeout (no influence on the lowering)
+    let mut m = if lc.floaty() { Model::with_config(selen::utils::config::SolverConfig::default().with_timeout_ms(1500)) } else { Model::default() };
     let mut ids = vec![];
-    for d in &lc.doms {
-        let contiguous = d.windows(2).all(|w| w[1] == w[0] + 1);
-        ids.push(if contiguous { m.int(d[0], *d.last().unwrap()) } else { m.intset(d.clone()) });
+    for v in &lc.vars {
+        match v {
+            VarSpec::I(d) => {
+                let contiguous = d.windows(2).all(|w| w[1] == w[0] + 1);
+                ids.push(if contiguous { m.int(d[0], *d.last().unwrap()) } else { m.intset(d.clone()) });
+            }
+            VarSpec::F(lo, hi) => ids.push(m.float(*lo, *hi)),
+        }
     }
     for c in &lc.cons {
         m.new(c.build(&ids));
@@ -218,28 +285,132 @@ fn dump_dom(v: &selen::variables::Var) -> String {
     }
 }
 
-pub fn do_lower(lc: &LCase, out: &mut Out) {
-    let r = guarded(|| {
+/// Rust prints an `f64` inside `Debug` output as the shortest text that parses back to the same
+/// value; floats are never compared as text: every float token (`2.5`, `-0.0`, `1e-6`, `inf`, `NaN`)
+/// of a `Debug` string is re-encoded as `f<bits>` (integers — no `.`/`e` — are left alone)
+pub fn canon_floats(s: &str) -> String {
+    let b: Vec<char> = s.chars().collect();
+    let mut o = String::with_capacity(s.len());
+    let is_word = |c: char| c.is_alphanumeric() || c == '_';
+    let mut i = 0;
+    while i < b.len() {
+        let prev_word = i > 0 && (is_word(b[i - 1]) || b[i - 1] == '.');
+        let starts_num = !prev_word && (b[i].is_ascii_digit() || (b[i] == '-' && i + 1 < b.len() && (b[i + 1].is_ascii_digit() || b[i + 1] == 'i')));
+        let special = |j: usize| -> Option<usize> {
+            for w in ["inf", "NaN"] {
+                let wc: Vec<char> = w.chars().collect();
+                if j + wc.len() <= b.len() && b[j..j + wc.len()] == wc[..] && (j + wc.len() == b.len() || !is_word(b[j + wc.len()])) { return Some(j + wc.len()); }
+            }
+            None
+        };
+        if !prev_word {
+            let j0 = if b[i] == '-' { i + 1 } else { i };
+            if let Some(e) = if j0 < b.len() { special(j0) } else { None } {
+                let t: String = b[i..e].iter().collect();
+                if let Ok(x) = t.parse::<f64>() { o.push_str(&format!("f{}", x.to_bits())); i = e; continue; }
+            }
+        }
+        if starts_num && b[if b[i] == '-' { i + 1 } else { i }].is_ascii_digit() {
+            let mut j = if b[i] == '-' { i + 1 } else { i };
+            let mut floaty = false;
+            while j < b.len() && b[j].is_ascii_digit() { j += 1; }
+            if j + 1 < b.len() && b[j] == '.' && b[j + 1].is_ascii_digit() { floaty = true; j += 1; while j < b.len() && b[j].is_ascii_digit() { j += 1; } }
+            if j < b.len() && (b[j] == 'e' || b[j] == 'E') {
+                let mut k = j + 1;
+                if k < b.len() && (b[k] == '-' || b[k] == '+') { k += 1; }
+                if k < b.len() && b[k].is_ascii_digit() { floaty = true; j = k; while j < b.len() && b[j].is_ascii_digit() { j += 1; } }
+            }
+            let t: String = b[i..j].iter().collect();
+            if floaty {
+                match t.parse::<f64>() { Ok(x) => o.push_str(&format!("f{}", x.to_bits())), Err(_) => o.push_str(&t) }
+            } else {
+                o.push_str(&t);
+            }
+            i = j;
+            continue;
+        }
+        o.push(b[i]);
+        i += 1;
+    }
+    o
+}
+
+fn panic_tag(lc: &LCase) -> &'static str {
+    // recorded finding: a posted equality emptied a domain and a later `x == y` reads its bounds
+    let eqs = lc.cons.iter().filter(|c| matches!(c, Co::Bin(Ex::V(_), "eq", Ex::V(_)))).count();
+    if eqs >= 1 { "empty-domain-view-panic" } else { "-" }
+}
+
+/// the real lowering: `(dump line, Debug strings of the lowered propagators)`
+fn lower_dump(lc: &LCase) -> Option<(String, Vec<String>)> {
+    guarded(|| {
         let (m, _) = build_model(lc);
         match m.verif_lower() {
-            Err(e) => format!("error {}", format!("{:?}", e).split(|c: char| !c.is_alphanumeric()).next().unwrap_or("?")),
+            Err(e) => (format!("error {}", format!("{:?}", e).split(|c: char| !c.is_alphanumeric()).next().unwrap_or("?")), vec![]),
             Ok((vars, props)) => {
                 let n = vars.count();
                 let ids = var_ids(n);
                 let doms: Vec<String> = ids.iter().map(|id| dump_dom(&vars[*id])).collect();
-                let ps: Vec<String> = props.get_prop_ids_iter().map(|p| format!("{:?}", props.get_state(p))).collect();
-                format!("vars={} props={}", doms.join("|"), ps.join(" ;; "))
+                let ps: Vec<String> = props.get_prop_ids_iter().map(|p| canon_floats(&format!("{:?}", props.get_state(p)))).collect();
+                (format!("vars={} props={}", doms.join("|"), ps.join(" ;; ")), ps)
+            }
+        }
+    })
+}
+
+pub fn do_lower(lc: &LCase, out: &mut Out) {
+    match lower_dump(lc) {
+        None => {
+            let l = out.emit("lw.lower", "panic");
+            out.fail(l, "C17", panic_tag(lc), "panic while lowering");
+        }
+        Some((s, ps)) => {
+            for p in &ps {
+                out.stat(&format!("lowered.{}", p.split_whitespace().next().unwrap_or("?")));
+            }
+            out.emit("lw.lower", s);
+        }
+    }
+}
+
+/// one pass of the real `prune` of every lowered propagator (in posting order) over the lowered
+/// variables, when all of them are linear rows (`IntLin*` / `FloatLin*`): ties the model of the
+/// INTEGER rows over float variables (`ILin` in `Model/LowerFloat.lean`) to the code
+pub fn do_prune(lc: &LCase, out: &mut Out) {
+    let r = guarded(|| {
+        let (m, _) = build_model(lc);
+        match m.verif_lower() {
+            Err(e) => format!("error {}", format!("{:?}", e).split(|c: char| !c.is_alphanumeric()).next().unwrap_or("?")),
+            Ok((mut vars, props)) => {
+                let pids: Vec<_> = props.get_prop_ids_iter().collect();
+                let rows = pids.iter().all(|p| {
+                    let d = format!("{:?}", props.get_state(*p));
+                    ["IntLinEq", "IntLinLe", "IntLinNe", "FloatLinEq", "FloatLinLe", "FloatLinNe"].iter().any(|k| d.starts_with(&format!("{k} ")))
+                });
+                if !rows { return "skip".to_string(); }
+                let mut events = Vec::new();
+                for (k, p) in pids.iter().enumerate() {
+                    let ok = {
+                        let mut ctx = selen::variables::views::Context::verif_new(&mut vars, &mut events);
+                        props.get_state(*p).as_ref().prune(&mut ctx).is_some()
+                    };
+                    if !ok { return format!("fail {k}"); }
+                }
+                let ids = var_ids(vars.count());
+                let doms: Vec<String> = ids.iter().map(|id| dump_dom(&vars[*id])).collect();
+                format!("vars={}", doms.join("|"))
             }
         }
     });
     match r {
         None => {
-            let l = out.emit("lw.lower", "panic");
-            // recorded finding: a posted equality emptied a domain and a later `x == y` reads its bounds
-            let eqs = lc.cons.iter().filter(|c| matches!(c, Co::Bin(Ex::V(_), "eq", Ex::V(_)))).count();
-            out.fail(l, "C17", if eqs >= 1 { "empty-domain-view-panic" } else { "-" }, "panic while lowering");
+            let l = out.emit("lw.prune", "panic");
+            out.fail(l, "C17", panic_tag(lc), "panic while pruning the lowered rows");
         }
-        Some(s) => { out.emit("lw.lower", s); }
+        Some(s) => {
+            out.stat(&format!("prune.{}", s.split(|c: char| c == ' ' || c == '=').next().unwrap_or("?")));
+            out.emit("lw.prune", s);
+        }
     }
 }
 
@@ -263,24 +434,24 @@ pub fn do_enum(lc: &LCase, out: &mut Out) {
     });
     let Some(sols) = r else {
         let l = out.emit("lw.enum", "panic");
-        let eqs = lc.cons.iter().filter(|c| matches!(c, Co::Bin(Ex::V(_), "eq", Ex::V(_)))).count();
-        out.fail(l, "C17", if eqs >= 1 { "empty-domain-view-panic" } else { "-" }, "panic in enumerate of a fluent model");
+        out.fail(l, "C17", panic_tag(lc), "panic in enumerate of a fluent model");
         return;
     };
     let parts: Vec<String> = sols.iter().map(|v| v.iter().map(|x| x.to_string()).collect::<Vec<_>>().join(",")).collect();
     let l = out.emit("lw.enum", format!("n={} sols={}", sols.len(), parts.join(";")));
     // oracle (C10): projection on the user's variables = truth set of the trees
-    let n = lc.doms.len();
+    let doms = lc.int_doms();
+    let n = doms.len();
     let mut want: Vec<Vec<i64>> = vec![];
     let mut a = vec![0i64; n];
-    fn rec(lc: &LCase, k: usize, a: &mut Vec<i64>, out: &mut Vec<Vec<i64>>) {
-        if k == lc.doms.len() {
-            if lc.cons.iter().all(|c| c.eval(a) == Some(true)) { out.push(a.clone()); }
+    fn rec(doms: &Vec<Vec<i32>>, cons: &Vec<Co>, k: usize, a: &mut Vec<i64>, out: &mut Vec<Vec<i64>>) {
+        if k == doms.len() {
+            if cons.iter().all(|c| c.eval(a) == Some(true)) { out.push(a.clone()); }
             return;
         }
-        for v in &lc.doms[k] { a[k] = *v as i64; rec(lc, k + 1, a, out); }
+        for v in &doms[k] { a[k] = *v as i64; rec(doms, cons, k + 1, a, out); }
     }
-    rec(lc, 0, &mut a, &mut want);
+    rec(&doms, &lc.cons, 0, &mut a, &mut want);
     let mut got: Vec<Vec<i64>> = sols.iter().map(|s| s[..n.min(s.len())].to_vec()).collect();
     got.sort();
     got.dedup();
@@ -292,6 +463,325 @@ pub fn do_enum(lc: &LCase, out: &mut Out) {
         let missing: Vec<_> = want.iter().filter(|w| !got.contains(w)).take(1).collect();
         out.fail(l, "C10", tag, format!("solution set of {:?} differs from the truth set of the trees: extra {:?} missing {:?} ({} vs {})",
             lc.cons.iter().map(|c| c.tokens()).collect::<Vec<_>>(), extra, missing, got.len(), want.len()));
+    }
+}
+
+// ---------------------------------------------------------------------------------------------
+// float cases: oracle = direct evaluation of the trees at the returned solution (and at the witness
+// point when `solve()` answers NoSolution), within the tolerance of the `#flapi` stream of
+// `float.rs`:  Σ_float-vars |cᵢ|·(max(3·step, 1e-5·|xᵢ|) + 1.5·step)
+// ---------------------------------------------------------------------------------------------
+
+const STEP: f64 = 1e-6;
+
+#[derive(Clone, Copy, PartialEq, Debug)]
+pub enum Tri { T, F, U }
+
+impl Tri {
+    fn not(self) -> Tri { match self { Tri::T => Tri::F, Tri::F => Tri::T, Tri::U => Tri::U } }
+}
+
+/// net linear form `Σ cᵢ·xᵢ + k` of a tree already folded by `fold_real`; `gross` sums `|c|` per
+/// OCCURRENCE of a variable (what matters when the occurrences are lowered separately)
+fn lin_f(e: &Ex, sign: f64, cs: &mut std::collections::BTreeMap<usize, f64>, gross: &mut std::collections::BTreeMap<usize, f64>, k: &mut f64) -> bool {
+    let mut term = |i: usize, c: f64| { *cs.entry(i).or_insert(0.0) += sign * c; *gross.entry(i).or_insert(0.0) += c.abs(); };
+    match e {
+        Ex::V(i) => { term(*i, 1.0); true }
+        Ex::K(c) => { *k += sign * *c as f64; true }
+        Ex::F(c) => { *k += sign * *c; true }
+        Ex::Add(a, b) => lin_f(a, sign, cs, gross, k) && lin_f(b, sign, cs, gross, k),
+        Ex::Sub(a, b) => lin_f(a, sign, cs, gross, k) && lin_f(b, -sign, cs, gross, k),
+        Ex::Mul(a, b) => match (&**a, &**b) {
+            (Ex::V(i), Ex::K(c)) | (Ex::K(c), Ex::V(i)) => { term(*i, *c as f64); true }
+            (Ex::V(i), Ex::F(c)) | (Ex::F(c), Ex::V(i)) => { term(*i, *c); true }
+            _ => false,
+        },
+        _ => false,
+    }
+}
+
+impl Ex {
+    pub fn has_float_lit(&self) -> bool {
+        match self {
+            Ex::F(_) => true,
+            Ex::V(_) | Ex::K(_) => false,
+            Ex::Add(a, b) | Ex::Sub(a, b) | Ex::Mul(a, b) | Ex::Div(a, b) | Ex::Mod(a, b) => a.has_float_lit() || b.has_float_lit(),
+        }
+    }
+    /// a literal that is not finite, or a division of two literals by a zero literal (the builder
+    /// folds it to `inf`)
+    pub fn nonfinite(&self) -> bool {
+        match self {
+            Ex::F(x) => !x.is_finite(),
+            Ex::V(_) | Ex::K(_) => false,
+            Ex::Div(a, b) => a.nonfinite() || b.nonfinite() || matches!((&**a, &**b), (Ex::K(_) | Ex::F(_), Ex::K(0))) || matches!((&**a, &**b), (Ex::K(_) | Ex::F(_), Ex::F(z)) if z.abs() < f64::EPSILON),
+            Ex::Add(a, b) | Ex::Sub(a, b) | Ex::Mul(a, b) | Ex::Mod(a, b) => a.nonfinite() || b.nonfinite(),
+        }
+    }
+    /// value at a point, real arithmetic (`None`: division / remainder by zero)
+    pub fn evalf(&self, v: &[f64]) -> Option<f64> {
+        Some(match self {
+            Ex::V(i) => v[*i],
+            Ex::K(k) => *k as f64,
+            Ex::F(x) => *x,
+            Ex::Add(a, b) => a.evalf(v)? + b.evalf(v)?,
+            Ex::Sub(a, b) => a.evalf(v)? - b.evalf(v)?,
+            Ex::Mul(a, b) => a.evalf(v)? * b.evalf(v)?,
+            Ex::Div(a, b) => { let d = b.evalf(v)?; if d == 0.0 { return None; } a.evalf(v)? / d }
+            Ex::Mod(a, b) => { let d = b.evalf(v)?; if d == 0.0 { return None; } a.evalf(v)? % d }
+        })
+    }
+    /// `get_expr_var` of this (already folded) side of a comparison that is materialised through
+    /// views: every arithmetic node and every non-variable child of one (constants included) gets an
+    /// auxiliary INTEGER variable `-1000..1000`; is one of their values at `v` outside that domain
+    /// (not an integer, or out of range)?
+    pub fn aux_clipped(&self, v: &[f64]) -> bool {
+        fn out(e: &Ex, v: &[f64]) -> bool { match e.evalf(v) { Some(x) => x.fract() != 0.0 || x.abs() > 1000.0, None => true } }
+        fn kids(e: &Ex, v: &[f64]) -> bool {
+            match e {
+                Ex::V(_) | Ex::K(_) | Ex::F(_) => false,
+                Ex::Add(a, b) | Ex::Sub(a, b) | Ex::Mul(a, b) | Ex::Div(a, b) | Ex::Mod(a, b) =>
+                    [a, b].iter().any(|c| !matches!(&***c, Ex::V(_)) && (out(c, v) || kids(c, v))),
+            }
+        }
+        match self { Ex::V(_) | Ex::K(_) | Ex::F(_) => false, e => out(e, v) || kids(e, v) }
+    }
+    pub fn vars(&self, acc: &mut Vec<usize>) {
+        match self {
+            Ex::V(i) => acc.push(*i),
+            Ex::K(_) | Ex::F(_) => {}
+            Ex::Add(a, b) | Ex::Sub(a, b) | Ex::Mul(a, b) | Ex::Div(a, b) | Ex::Mod(a, b) => { a.vars(acc); b.vars(acc); }
+        }
+    }
+}
+
+/// what the code does with a comparison leaf `l op r`, predicted from the tree alone
+#[derive(Debug)]
+pub struct LeafClass {
+    /// the immediate `Var == Val` / `Val == Var` pattern
+    pub immediate: bool,
+    /// both sides linear in the builder's sense (after its constant folding)
+    pub linear: bool,
+    /// `try_convert_to_linear_ast` chooses `LinearInt`: no float literal is left after folding
+    pub int_lowered: bool,
+    pub has_float_var: bool,
+    /// every variable with a non-zero net coefficient is an integer variable
+    pub all_int_vars: bool,
+    pub plain_vv: bool,
+    pub all_zero: bool,
+    pub cs: std::collections::BTreeMap<usize, f64>,
+    pub gross: std::collections::BTreeMap<usize, f64>,
+    pub k: f64,
+    pub has_float_lit: bool,
+    /// a constant of the tree folds to `inf` / NaN (division by a zero literal): not followed
+    pub nonfinite: bool,
+}
+
+pub fn classify(lc: &LCase, l: &Ex, op: &str, r: &Ex) -> LeafClass {
+    let (l, r) = (l.fold_real(), r.fold_real());
+    let immediate = op == "eq" && matches!((&l, &r), (Ex::V(_), Ex::K(_) | Ex::F(_)) | (Ex::K(_) | Ex::F(_), Ex::V(_)));
+    let mut cs = std::collections::BTreeMap::new();
+    let mut gross = std::collections::BTreeMap::new();
+    let mut k = 0.0;
+    let linear = lin_f(&l, 1.0, &mut cs, &mut gross, &mut k) && lin_f(&r, -1.0, &mut cs, &mut gross, &mut k);
+    let mut vs = vec![];
+    l.vars(&mut vs);
+    r.vars(&mut vs);
+    LeafClass {
+        immediate,
+        linear,
+        int_lowered: linear && !l.has_float_lit() && !r.has_float_lit(),
+        has_float_var: vs.iter().any(|v| lc.is_float_var(*v)),
+        all_int_vars: cs.iter().filter(|(_, c)| **c != 0.0).all(|(v, _)| !lc.is_float_var(*v)),
+        plain_vv: matches!((&l, &r), (Ex::V(_), Ex::V(_))),
+        all_zero: linear && cs.values().all(|c| *c == 0.0),
+        cs,
+        gross,
+        k,
+        has_float_lit: l.has_float_lit() || r.has_float_lit(),
+        nonfinite: l.nonfinite() || r.nonfinite(),
+    }
+}
+
+/// three-valued truth of a comparison leaf at the point `v`.
+/// `margin = false` (a returned solution): `F` only when the leaf is violated beyond the tolerance;
+/// `margin = true` (the witness): `T` only when it holds with a margin of `10·step·Σ|cᵢ|`.
+/// Leaves without float variables are decided exactly.
+fn leaf_tri(lc: &LCase, l: &Ex, op: &str, r: &Ex, v: &[f64], margin: bool, top: bool) -> Tri {
+    let c = classify(lc, l, op, r);
+    if c.nonfinite { return Tri::U; }
+    if !c.linear {
+        // non-linear: decided only for integer trees (exact integer reading)
+        if c.has_float_lit || c.has_float_var || v.iter().any(|x| x.fract() != 0.0) {
+            return Tri::U;
+        }
+        let a: Vec<i64> = v.iter().map(|x| *x as i64).collect();
+        return match Co::Bin(l.clone(), match op { "eq" => "eq", "ne" => "ne", "lt" => "lt", "le" => "le", "gt" => "gt", _ => "ge" }, r.clone()).eval(&a) { Some(true) => Tri::T, _ => Tri::F };
+    }
+    let mut d = c.k;
+    let mut mag = c.k.abs();
+    let mut tol = 0.0;
+    let mut sum_abs = 0.0;
+    // a top-level row is posted with merged coefficients; a nested leaf keeps every occurrence
+    let weights = if top && !c.immediate { c.cs.iter().map(|(x, ci)| (*x, ci.abs())).collect::<Vec<_>>() } else { c.gross.iter().map(|(x, g)| (*x, *g)).collect::<Vec<_>>() };
+    for (x, ci) in &c.cs {
+        d += ci * v[*x];
+        mag += (ci * v[*x]).abs();
+    }
+    for (x, g) in &weights {
+        sum_abs += g;
+        if lc.is_float_var(*x) && *g != 0.0 {
+            tol += g * ((3.0 * STEP).max(1e-5 * v[*x].abs()) + 1.5 * STEP);
+        }
+    }
+    let slack = 1e-9 * mag + 1e-300;
+    if !c.has_float_lit && !c.has_float_var {
+        // exact
+        let t = match op { "eq" => d == 0.0, "ne" => d != 0.0, "lt" => d < 0.0, "le" => d <= 0.0, "gt" => d > 0.0, _ => d >= 0.0 };
+        return if t { Tri::T } else { Tri::F };
+    }
+    // float literals: one step of slack per unit of coefficient (strictness epsilon, singleton
+    // float variables of the constants)
+    let base = 4.5 * STEP * (1.0 + sum_abs);
+    let band = if margin { 10.0 * STEP * (1.0 + sum_abs) + slack } else { tol + base + slack };
+    match op {
+        "le" | "lt" => if d <= -band { Tri::T } else if d >= band { Tri::F } else { Tri::U },
+        "ge" | "gt" => if d >= band { Tri::T } else if d <= -band { Tri::F } else { Tri::U },
+        "eq" => if d.abs() > band { Tri::F } else if margin && d == 0.0 { Tri::T } else { Tri::U },
+        _ => if d == 0.0 { Tri::F } else if d.abs() >= band { Tri::T } else { Tri::U },
+    }
+}
+
+impl Co {
+    pub fn has_float_lit(&self) -> bool {
+        self.has(&|c| matches!(c, Co::Bin(l, _, r) if l.fold_real().has_float_lit() || r.fold_real().has_float_lit()))
+    }
+    pub fn has_divmod(&self) -> bool {
+        self.has(&|c| matches!(c, Co::Bin(l, _, r) if l.fold_real().has_divmod() || r.fold_real().has_divmod()))
+    }
+    pub fn tri(&self, lc: &LCase, v: &[f64], margin: bool) -> Tri { self.tri_at(lc, v, margin, true) }
+    fn tri_at(&self, lc: &LCase, v: &[f64], margin: bool, top: bool) -> Tri {
+        match self {
+            Co::Bin(l, op, r) => leaf_tri(lc, l, op, r, v, margin, top),
+            Co::And(a, b) => match (a.tri_at(lc, v, margin, false), b.tri_at(lc, v, margin, false)) { (Tri::F, _) | (_, Tri::F) => Tri::F, (Tri::T, Tri::T) => Tri::T, _ => Tri::U },
+            Co::Or(a, b) => match (a.tri_at(lc, v, margin, false), b.tri_at(lc, v, margin, false)) { (Tri::T, _) | (_, Tri::T) => Tri::T, (Tri::F, Tri::F) => Tri::F, _ => Tri::U },
+            Co::Not(a) => a.tri_at(lc, v, margin, false).not(),
+        }
+    }
+    /// NEW finding `mixed-strict-next-unit-step`: a STRICT comparison materialised through views
+    /// (`less_than(a, b)` = `Next(a) <= b`) whose smaller side is represented by an INTEGER variable
+    /// (integer user variable, auxiliary variable, integer constant) and whose larger side is
+    /// float-valued: `Next` of an integer is `+1`, so `a < b` becomes `a + 1 <= b` and points with
+    /// `0 < b - a < 1` are lost; is there such a leaf with that gap at `v`?
+    pub fn strict_unit_gap_at(&self, lc: &LCase, v: &[f64], top: bool) -> bool {
+        match self {
+            Co::Bin(l, op, r) => {
+                let (l, r) = (l.fold_real(), r.fold_real());
+                if top && l.is_linear() && r.is_linear() { return false; }
+                let is_float = |e: &Ex| match e { Ex::V(i) => lc.is_float_var(*i), Ex::F(_) => true, _ => false };
+                let (small, large) = match *op { "lt" => (&l, &r), "gt" => (&r, &l), _ => return false };
+                if is_float(small) || !is_float(large) { return false; }
+                match (small.evalf(v), large.evalf(v)) { (Some(a), Some(b)) => b - a > 0.0 && b - a < 1.0, _ => false }
+            }
+            Co::And(a, b) | Co::Or(a, b) => a.strict_unit_gap_at(lc, v, false) || b.strict_unit_gap_at(lc, v, false),
+            Co::Not(a) => a.strict_unit_gap_at(lc, v, false),
+        }
+    }
+    /// a leaf that is materialised through views (`get_expr_var`): nested in a combinator, or a
+    /// top-level comparison with a non-linear side — whose auxiliary integer variables cannot take the
+    /// values of their sub-expressions at `v`
+    pub fn aux_clipped_at(&self, v: &[f64], top: bool) -> bool {
+        match self {
+            Co::Bin(l, _, r) => {
+                let (l, r) = (l.fold_real(), r.fold_real());
+                let through_views = !top || !(l.is_linear() && r.is_linear());
+                // the `Var op Val` / `Val op Var` arms create a singleton of the literal's kind only
+                let var_val = matches!((&l, &r), (Ex::V(_), Ex::K(_) | Ex::F(_)) | (Ex::K(_) | Ex::F(_), Ex::V(_)));
+                through_views && !var_val && (l.aux_clipped(v) || r.aux_clipped(v))
+            }
+            Co::And(a, b) | Co::Or(a, b) => a.aux_clipped_at(v, false) || b.aux_clipped_at(v, false),
+            Co::Not(a) => a.aux_clipped_at(v, false),
+        }
+    }
+    /// matcher of the recorded findings for a float case: which defect explains that the returned
+    /// solution violates this tree (`nosol = false`) / that the satisfiable model is reported
+    /// unsatisfiable (`nosol = true`), judged from what the lowering does with the tree
+    pub fn float_tag(&self, lc: &LCase, nosol: bool) -> &'static str {
+        if let Co::Bin(l, op, r) = self {
+            let c = classify(lc, l, op, r);
+            if c.immediate { return "-"; }
+            if !c.linear { return if *op == "ne" { "neq-noop" } else { "-" }; }
+            if c.int_lowered {
+                if c.all_zero { return "lin-all-zero-coefficients"; }
+                if !c.has_float_var { return "-"; }
+                // an INTEGER linear row over float variables
+                if nosol {
+                    let mixed = { let mut vs = vec![]; l.vars(&mut vs); r.vars(&mut vs); vs.iter().any(|v| lc.is_float_var(*v)) && vs.iter().any(|v| !lc.is_float_var(*v)) };
+                    return if c.plain_vv && mixed && (*op == "lt" || *op == "gt") { "mixed-strict-cmp-int-lowered" } else { "float-row-lowered-to-intlin" };
+                }
+                return if *op == "ne" { "float-ne-ignored" } else if c.plain_vv { "float-varvar-cmp-ignored" } else { "float-row-lowered-to-intlin" };
+            }
+            // a FLOAT linear row
+            if c.all_zero { return "lin-all-zero-coefficients"; }
+            if nosol {
+                // FloatLinEq over an integer AND a float variable: the integer arm has no tolerance
+                let nz_int = c.cs.iter().any(|(v, ci)| *ci != 0.0 && !lc.is_float_var(*v));
+                let nz_flt = c.cs.iter().any(|(v, ci)| *ci != 0.0 && lc.is_float_var(*v));
+                return if *op == "eq" && nz_int && nz_flt { "float-eq-int-var-rounding" } else { "-" };
+            }
+            return if *op == "ne" { "float-ne-ignored" } else if c.all_int_vars && *op != "eq" { "int-var-in-float-linear" } else { "-" };
+        }
+        self.finding_tag(true)
+    }
+}
+
+/// `solve()` of a float case; nothing is compared with the model (result line `-`), the oracle
+/// evaluates the trees directly
+pub fn do_solve(lc: &LCase, out: &mut Out) {
+    let l = out.emit("lw.solve", "-");
+    let n = lc.vars.len();
+    let r = guarded(|| {
+        let (m, ids) = build_model(lc);
+        selen::verif_hooks::set_root_lp_disabled(true);
+        let r = m.solve();
+        selen::verif_hooks::set_root_lp_disabled(false);
+        r.map(|s| (0..n).map(|i| match s[ids[i]] { Val::ValI(x) => x as f64, Val::ValF(f) => f }).collect::<Vec<f64>>())
+    });
+    selen::verif_hooks::set_root_lp_disabled(false);
+    let toks = || lc.cons.iter().map(|c| c.tokens()).collect::<Vec<_>>();
+    match r {
+        None => {
+            out.stat("solve.panic");
+            out.fail(l, "C17", panic_tag(lc), "panic in solve() of a fluent float model");
+        }
+        Some(Ok(v)) => {
+            out.stat("solve.Ok");
+            for c in &lc.cons {
+                match c.tri(lc, &v, false) {
+                    Tri::F => {
+                        out.fail(l, "C10", c.float_tag(lc, false), format!("the returned solution {:?} violates the tree {} (vars {:?})", v, c.tokens(), lc.vars));
+                    }
+                    Tri::U => out.stat("solve.tree-within-tolerance-or-undecided"),
+                    Tri::T => out.stat("solve.tree-true"),
+                }
+            }
+        }
+        Some(Err(SolverError::NoSolution { .. })) => {
+            out.stat("solve.NoSolution");
+            if let Some(w) = &lc.wit {
+                if lc.cons.iter().all(|c| c.tri(lc, w, true) == Tri::T) {
+                    out.stat("solve.NoSolution-with-witness");
+                    let tag = if lc.cons.iter().any(|c| c.aux_clipped_at(w, true)) { "aux-var-clipped" }
+                        else if lc.cons.iter().any(|c| c.strict_unit_gap_at(lc, w, true)) { "mixed-strict-next-unit-step" }
+                        else if let Some(t) = lc.cons.iter().filter(|c| !matches!(c, Co::Bin(..))).map(|c| c.finding_tag(true)).find(|t| *t != "-") { t }
+                        else { lc.cons.iter().map(|c| c.float_tag(lc, true)).find(|t| *t != "-").unwrap_or("-") };
+                    out.fail(l, "C10", tag, format!("solve() = NoSolution although the witness {:?} satisfies every tree with margin: {:?} (vars {:?})", w, toks(), lc.vars));
+                }
+            }
+        }
+        Some(Err(e)) => {
+            out.stat(&format!("solve.err.{}", format!("{:?}", e).split(|c: char| !c.is_alphanumeric()).next().unwrap_or("?")));
+        }
     }
 }
 
@@ -333,9 +823,96 @@ fn rand_co(r: &mut Rng, n: usize, depth: usize, nonlin: bool) -> Co {
     }
 }
 
+// ---- generator of float / mixed cases --------------------------------------------------------
+
+/// literal of either kind; floats mostly dyadic (exact arithmetic), sometimes decimal
+fn rand_lit(r: &mut Rng, float_bias: u64) -> Ex {
+    if r.chance(float_bias, 4) {
+        match r.below(6) {
+            0 => Ex::F(r.range(-30, 30) as f64 * 0.1),
+            1 => Ex::F(r.range(-3, 4) as f64),          // integral float literal: still a FLOAT kind
+            2 => Ex::F(1.0),
+            _ => Ex::F(r.range(-12, 12) as f64 * 0.25),
+        }
+    } else {
+        Ex::K(r.range(-3, 4) as i32)
+    }
+}
+
+/// mixed trees: literals of both kinds in every position (constant leaf, `var * lit`, `lit * var`,
+/// folded `lit op lit` incl. `lit / lit`), repeated variables
+fn rand_fex(r: &mut Rng, n: usize, depth: usize, fb: u64, nonlin: bool) -> Ex {
+    if depth == 0 || r.chance(1, 4) {
+        return if r.chance(1, 3) { rand_lit(r, fb) } else { Ex::V(r.below(n as u64) as usize) };
+    }
+    match r.below(if nonlin { 14 } else { 11 }) {
+        0..=3 => Ex::Add(Box::new(rand_fex(r, n, depth - 1, fb, nonlin)), Box::new(rand_fex(r, n, depth - 1, fb, nonlin))),
+        4..=6 => Ex::Sub(Box::new(rand_fex(r, n, depth - 1, fb, nonlin)), Box::new(rand_fex(r, n, depth - 1, fb, nonlin))),
+        7 => Ex::Mul(Box::new(Ex::V(r.below(n as u64) as usize)), Box::new(rand_lit(r, fb))),
+        8 => Ex::Mul(Box::new(rand_lit(r, fb)), Box::new(Ex::V(r.below(n as u64) as usize))),
+        9 => {
+            // constants folded by the builder: `lit op lit`
+            let (a, b) = (Box::new(rand_lit(r, fb)), Box::new(rand_lit(r, fb)));
+            match r.below(4) { 0 => Ex::Add(a, b), 1 => Ex::Sub(a, b), 2 => Ex::Mul(a, b), _ => Ex::Div(a, b) }
+        }
+        10 => if r.chance(1, 2) { Ex::Mul(Box::new(rand_fex(r, n, depth - 1, fb, nonlin)), Box::new(rand_lit(r, fb))) } else { Ex::Div(Box::new(rand_fex(r, n, depth - 1, fb, nonlin)), Box::new(Ex::K(1))) },
+        11 => Ex::Mul(Box::new(rand_fex(r, n, depth - 1, fb, nonlin)), Box::new(rand_fex(r, n, depth - 1, fb, nonlin))),
+        12 => Ex::Div(Box::new(rand_fex(r, n, depth - 1, fb, nonlin)), Box::new(rand_fex(r, n, depth - 1, fb, nonlin))),
+        _ => Ex::Mod(Box::new(rand_fex(r, n, depth - 1, fb, nonlin)), Box::new(rand_fex(r, n, depth - 1, fb, nonlin))),
+    }
+}
+
+/// a comparison; most of the time the operator is chosen so that the leaf holds at the witness
+fn rand_fleaf(r: &mut Rng, lc: &LCase, fb: u64, nonlin: bool) -> Co {
+    let ops = ["eq", "ne", "lt", "le", "gt", "ge"];
+    let n = lc.vars.len();
+    let shape = r.below(10);
+    let (l, rr) = match shape {
+        // var-val / val-var / var-var shapes (the `post_var_val` / `post_val_var` arms when nested)
+        0 => (Ex::V(r.below(n as u64) as usize), rand_lit(r, fb)),
+        1 => (rand_lit(r, fb), Ex::V(r.below(n as u64) as usize)),
+        2 => (Ex::V(r.below(n as u64) as usize), Ex::V(r.below(n as u64) as usize)),
+        _ => { let d = r.range(0, 2) as usize; (rand_fex(r, n, d, fb, nonlin), rand_fex(r, n, d, fb, nonlin)) }
+    };
+    let mut op = ops[r.below(6) as usize];
+    if let (Some(w), true) = (&lc.wit, r.chance(3, 4)) {
+        let c = classify(lc, &l, "le", &rr);
+        if c.linear {
+            let d: f64 = c.k + c.cs.iter().map(|(x, ci)| ci * w[*x]).sum::<f64>();
+            let m = 1e-4 * (1.0 + c.cs.values().map(|x| x.abs()).sum::<f64>());
+            op = if d > m { *r.pick(&["gt", "ge", "ne", "gt"]) } else if d < -m { *r.pick(&["lt", "le", "ne", "lt"]) } else if d == 0.0 { *r.pick(&["eq", "le", "ge", "eq"]) } else { op };
+        }
+    }
+    Co::Bin(l, op, rr)
+}
+
+fn rand_fco(r: &mut Rng, lc: &LCase, depth: usize, fb: u64, nonlin: bool) -> Co {
+    if depth == 0 || r.chance(3, 4) {
+        return rand_fleaf(r, lc, fb, nonlin);
+    }
+    let n = lc.vars.len();
+    match r.below(6) {
+        0..=2 => Co::And(Box::new(rand_fco(r, lc, depth - 1, fb, nonlin)), Box::new(rand_fco(r, lc, depth - 1, fb, nonlin))),
+        3 => {
+            // the special `x == a or x == b` shape (integer literals), and its float-literal neighbours
+            let x = r.below(n as u64) as usize;
+            let lit = |r: &mut Rng| if r.chance(1, 4) { rand_lit(r, 4) } else { Ex::K(r.range(-3, 4) as i32) };
+            Co::Or(Box::new(Co::Bin(Ex::V(x), "eq", lit(r))), Box::new(Co::Bin(Ex::V(x), "eq", lit(r))))
+        }
+        4 => Co::Or(Box::new(rand_fco(r, lc, depth - 1, fb, nonlin)), Box::new(rand_fco(r, lc, depth - 1, fb, nonlin))),
+        _ => Co::Not(Box::new(rand_fco(r, lc, depth - 1, fb, nonlin))),
+    }
+}
+
 fn emit_case(out: &mut Out, lc: &LCase) {
-    for d in &lc.doms {
-        out.emit(format!("lw.var {}", d.iter().map(|x| x.to_string()).collect::<Vec<_>>().join(" ")), "ok");
+    for v in &lc.vars {
+        match v {
+            VarSpec::I(d) => { out.emit(format!("lw.var {}", d.iter().map(|x| x.to_string()).collect::<Vec<_>>().join(" ")), "ok"); }
+            VarSpec::F(lo, hi) => { out.emit(format!("lw.fvar {} {}", lo.to_bits(), hi.to_bits()), "ok"); }
+        }
+    }
+    if let Some(w) = &lc.wit {
+        out.emit(format!("lw.wit {}", w.iter().map(|x| x.to_bits().to_string()).collect::<Vec<_>>().join(" ")), "ok");
     }
     for c in &lc.cons {
         out.emit(format!("lw.post {}", c.tokens()), "ok");
@@ -343,8 +920,181 @@ fn emit_case(out: &mut Out, lc: &LCase) {
     }
 }
 
+/// simulation of `try_extract_linear_form` on the KINDS of the coefficients (true = Float) of a tree
+/// folded by `fold_real`; records which arm of `add_coefficients` / `subtract_coefficients` /
+/// `negate_coefficient` every merge executes (`merge` = repeated variable, `const` = the constants)
+fn kind_arms(e: &Ex, out: &mut Out) -> Option<(Vec<(usize, bool)>, bool)> {
+    let kk = |a: bool, b: bool| format!("{}{}", if a { "Float" } else { "Int" }, if b { "Float" } else { "Int" });
+    match e {
+        Ex::V(i) => Some((vec![(*i, false)], false)),
+        Ex::K(_) => Some((vec![], false)),
+        Ex::F(_) => Some((vec![], true)),
+        Ex::Mul(a, b) => match (&**a, &**b) {
+            (Ex::V(i), Ex::K(_)) | (Ex::K(_), Ex::V(i)) => Some((vec![(*i, false)], false)),
+            (Ex::V(i), Ex::F(_)) | (Ex::F(_), Ex::V(i)) => Some((vec![(*i, true)], false)),
+            _ => None,
+        },
+        Ex::Add(a, b) | Ex::Sub(a, b) => {
+            let sub = matches!(e, Ex::Sub(..));
+            let f = if sub { "subtract_coefficients" } else { "add_coefficients" };
+            let (mut lv, lk) = kind_arms(a, out)?;
+            let (rv, rk) = kind_arms(b, out)?;
+            for (x, isf) in rv {
+                if let Some(p) = lv.iter().position(|v| v.0 == x) {
+                    out.stat(&format!("arm.{f}.merge.{}", kk(lv[p].1, isf)));
+                    lv[p].1 = lv[p].1 || isf;
+                } else {
+                    if sub { out.stat(&format!("arm.negate_coefficient.{}", if isf { "Float" } else { "Int" })); }
+                    lv.push((x, isf));
+                }
+            }
+            out.stat(&format!("arm.{f}.const.{}", kk(lk, rk)));
+            Some((lv, lk || rk))
+        }
+        _ => None,
+    }
+}
+
+/// the same for `try_convert_to_linear_ast` (left − right)
+fn cross_arms(l: &Ex, r: &Ex, out: &mut Out) {
+    let kk = |a: bool, b: bool| format!("{}{}", if a { "Float" } else { "Int" }, if b { "Float" } else { "Int" });
+    if let (Some((lv, lk)), Some((rv, rk))) = (kind_arms(l, out), kind_arms(r, out)) {
+        for (x, isf) in &rv {
+            if let Some(p) = lv.iter().position(|v| v.0 == *x) {
+                out.stat(&format!("arm.cross.subtract_coefficients.merge.{}", kk(lv[p].1, *isf)));
+            } else {
+                out.stat(&format!("arm.cross.negate_coefficient.{}", if *isf { "Float" } else { "Int" }));
+            }
+        }
+        out.stat(&format!("arm.cross.subtract_coefficients.const.{}", kk(lk, rk)));
+        out.stat(&format!("arm.cross.negate_coefficient.const.{}", if lk || rk { "Float" } else { "Int" }));
+    }
+}
+
+/// distribution of a float case: variable kinds, literal kinds by position, predicted lowering
+fn float_stats(out: &mut Out, lc: &LCase) {
+    for v in &lc.vars {
+        out.stat(match v { VarSpec::I(_) => "fvar.int", VarSpec::F(lo, hi) => if lo == hi { "fvar.float-singleton" } else { "fvar.float" } });
+    }
+    fn lits(e: &Ex, pos: &str, out: &mut Out) {
+        match e {
+            Ex::K(_) => out.stat(&format!("lit.int.{pos}")),
+            Ex::F(_) => out.stat(&format!("lit.float.{pos}")),
+            Ex::V(_) => {}
+            Ex::Mul(a, b) => { lits(a, "mul-left", out); lits(b, "mul-right", out); }
+            Ex::Div(a, b) => { lits(a, "div-left", out); lits(b, "div-right", out); }
+            Ex::Add(a, b) | Ex::Sub(a, b) | Ex::Mod(a, b) => { lits(a, "term", out); lits(b, "term", out); }
+        }
+    }
+    for c in &lc.cons {
+        let top = matches!(c, Co::Bin(..));
+        let mut leaves: Vec<(Ex, &'static str, Ex)> = vec![];
+        fn collect(c: &Co, acc: &mut Vec<(Ex, &'static str, Ex)>) {
+            match c { Co::Bin(l, op, r) => acc.push((l.clone(), op, r.clone())), Co::And(a, b) | Co::Or(a, b) => { collect(a, acc); collect(b, acc); } Co::Not(a) => collect(a, acc) }
+        }
+        collect(c, &mut leaves);
+        for (l, op, r) in &leaves {
+            lits(l, "lhs", out);
+            lits(r, "rhs", out);
+            let k = classify(lc, l, op, r);
+            let kinds = if k.has_float_var && !k.all_int_vars { "floatvars" } else if k.has_float_var { "mixedvars" } else { "intvars" };
+            if top && k.linear && !k.immediate {
+                cross_arms(&l.fold_real(), &r.fold_real(), out);
+            }
+            if top {
+                out.stat(&format!("row.{}.{}.{op}", if k.immediate { "immediate" } else if !k.linear { "nonlinear" } else if k.int_lowered { "int-lowered" } else { "float-lowered" }, kinds));
+            } else {
+                out.stat(&format!("nested-leaf.{}.{op}", kinds));
+            }
+        }
+    }
+}
+
+fn float_case(r: &mut Rng, nonlin: bool) -> LCase {
+    let n = r.range(1, 3) as usize;
+    let mut vars = vec![];
+    let mut wit = vec![];
+    // how float-heavy the case is: 0 = integer literals only (the recorded int-lowering findings),
+    // 4 = float literals only
+    let fb = *r.pick(&[0u64, 1, 2, 2, 3, 4]);
+    for i in 0..n {
+        let want_float = r.chance(3, 5) || (i == n - 1 && fb == 0 && !vars.iter().any(|v| matches!(v, VarSpec::F(..))));
+        if want_float {
+            let a = r.range(-16, 24);
+            let b = if r.chance(1, 8) { a } else { r.range(a, 24) };
+            let w = r.range(a, b);
+            vars.push(VarSpec::F(a as f64 * 0.25, b as f64 * 0.25));
+            wit.push(w as f64 * 0.25);
+        } else {
+            let d = crate::core::rand_dom(r, -3, 4);
+            wit.push(*r.pick(&d) as f64);
+            vars.push(VarSpec::I(d));
+        }
+    }
+    let mut lc = LCase { vars, cons: vec![], wit: Some(wit) };
+    let k = r.range(1, 2);
+    for _ in 0..k {
+        let c = rand_fco(r, &lc, 2, fb, nonlin);
+        lc.cons.push(c);
+    }
+    lc
+}
+
+/// malformed stream: ill-formed protocol lines (both sides must answer `bad-op` and stay in step),
+/// reversed float bounds (`InvalidDomain`), a literal division by zero (not followed by the model:
+/// `unsupported`)
+fn malformed_case(out: &mut Out, r: &mut Rng, id: &str) {
+    out.case(id);
+    out.stat("malformed.cases");
+    replay_reset();
+    let one = 1.0f64.to_bits();
+    let mut lines: Vec<String> = vec![
+        format!("lw.fvar {one}"),
+        "lw.fvar a b".to_string(),
+        format!("lw.fvar {} {}", (r.range(-8, 8) as f64 * 0.5).to_bits(), (r.range(8, 16) as f64 * 0.5).to_bits()),
+        "lw.wit abc".to_string(),
+        format!("lw.post cmp eq f abc v 0"),
+        format!("lw.post cmp lt f {one} v 0 extra"),
+        format!("lw.post cmp xx v 0 f {one}"),
+        "lw.frob".to_string(),
+    ];
+    match r.below(3) {
+        0 => { lines.push(format!("lw.fvar {} {}", 2.0f64.to_bits(), one)); lines.push("lw.post cmp le v 1 k 3".to_string()); }
+        1 => lines.push(format!("lw.post cmp le v 0 / f {one} k 0")),
+        _ => lines.push(format!("lw.post cmp {} v 0 f {}", ["eq", "ne", "lt", "le", "gt", "ge"][r.below(6) as usize], (r.range(-8, 8) as f64 * 0.25).to_bits())),
+    }
+    lines.push("lw.lower".to_string());
+    lines.push("lw.prune".to_string());
+    for l in &lines {
+        replay_line(out, l);
+    }
+    replay_reset();
+}
+
 pub fn suite(out: &mut Out, seed: u64, count: u64, args: &[String]) {
     let nonlin = args.iter().any(|a| a == "--nonlinear");
+    if args.iter().any(|a| a == "--float") {
+        let mut r0 = Rng::new(seed ^ 0xC10F);
+        for i in 0..count {
+            let mut r = r0.fork();
+            if i % 200 == 199 {
+                malformed_case(out, &mut r, &format!("lwm{i}"));
+                continue;
+            }
+            out.case(&format!("lwf{i}"));
+            let nl = nonlin || r.chance(1, 6);
+            let lc = float_case(&mut r, nl);
+            if out.samples.len() < 3 { out.samples.push(lc.cons.iter().map(|c| c.tokens()).collect::<Vec<_>>().join(" ; ")); }
+            emit_case(out, &lc);
+            float_stats(out, &lc);
+            do_lower(&lc, out);
+            do_prune(&lc, out);
+            if lc.floaty() { do_solve(&lc, out); }
+            else if lc.cons.iter().any(|c| c.has_divmod()) { out.stat("float-case.integer-only.divmod-not-enumerated"); }
+            else { out.stat("float-case.integer-only"); do_enum(&lc, out); }
+        }
+        return;
+    }
     let mut r0 = Rng::new(seed ^ 0xC10);
     for i in 0..count {
         let mut r = r0.fork();
@@ -353,7 +1103,7 @@ pub fn suite(out: &mut Out, seed: u64, count: u64, args: &[String]) {
         let doms: Vec<Vec<i32>> = (0..n).map(|_| crate::core::rand_dom(&mut r, -3, 4)).collect();
         let k = r.range(1, 2);
         let cons: Vec<Co> = (0..k).map(|_| rand_co(&mut r, n, 2, nonlin)).collect();
-        let lc = LCase { doms, cons };
+        let lc = LCase { vars: doms.into_iter().map(VarSpec::I).collect(), cons, wit: None };
         if out.samples.len() < 3 { out.samples.push(lc.cons.iter().map(|c| c.tokens()).collect::<Vec<_>>().join(" ; ")); }
         emit_case(out, &lc);
         do_lower(&lc, out);
@@ -367,6 +1117,7 @@ fn parse_ex(w: &[&str], i: &mut usize) -> Option<Ex> {
     Some(match t {
         "v" => { let k = w.get(*i)?.parse().ok()?; *i += 1; Ex::V(k) }
         "k" => { let k = w.get(*i)?.parse().ok()?; *i += 1; Ex::K(k) }
+        "f" => { let k: u64 = w.get(*i)?.parse().ok()?; *i += 1; Ex::F(f64::from_bits(k)) }
         "+" | "-" | "*" | "/" | "%" => {
             let a = Box::new(parse_ex(w, i)?);
             let b = Box::new(parse_ex(w, i)?);
@@ -395,12 +1146,12 @@ fn parse_co(w: &[&str], i: &mut usize) -> Option<Co> {
 }
 
 thread_local! {
-    static REPLAY_CASE: std::cell::RefCell<LCase> = std::cell::RefCell::new(LCase { doms: vec![], cons: vec![] });
+    static REPLAY_CASE: std::cell::RefCell<LCase> = std::cell::RefCell::new(LCase::empty());
 }
 
 /// a `case` line starts a fresh lowering case in replay mode
 pub fn replay_reset() {
-    REPLAY_CASE.with(|c| *c.borrow_mut() = LCase { doms: vec![], cons: vec![] });
+    REPLAY_CASE.with(|c| *c.borrow_mut() = LCase::empty());
 }
 
 /// replay of one protocol line of this suite inside the current case
@@ -410,7 +1161,21 @@ pub fn replay_line(out: &mut Out, line: &str) {
         Some("lw.var") => {
             let d: Option<Vec<i32>> = w[1..].iter().map(|x| x.parse().ok()).collect();
             match d {
-                Some(d) => { REPLAY_CASE.with(|c| c.borrow_mut().doms.push(d)); out.emit(line, "ok"); }
+                Some(d) => { REPLAY_CASE.with(|c| c.borrow_mut().vars.push(VarSpec::I(d))); out.emit(line, "ok"); }
+                None => { out.emit(line, "bad-op"); }
+            }
+        }
+        Some("lw.fvar") => {
+            let d: Option<Vec<u64>> = w[1..].iter().map(|x| x.parse().ok()).collect();
+            match d {
+                Some(d) if d.len() == 2 => { REPLAY_CASE.with(|c| c.borrow_mut().vars.push(VarSpec::F(f64::from_bits(d[0]), f64::from_bits(d[1])))); out.emit(line, "ok"); }
+                _ => { out.emit(line, "bad-op"); }
+            }
+        }
+        Some("lw.wit") => {
+            let d: Option<Vec<u64>> = w[1..].iter().map(|x| x.parse().ok()).collect();
+            match d {
+                Some(d) => { REPLAY_CASE.with(|c| c.borrow_mut().wit = Some(d.iter().map(|b| f64::from_bits(*b)).collect())); out.emit(line, "ok"); }
                 None => { out.emit(line, "bad-op"); }
             }
         }
@@ -423,6 +1188,8 @@ pub fn replay_line(out: &mut Out, line: &str) {
         }
         Some("lw.lower") => { let lc = REPLAY_CASE.with(|c| c.borrow().clone()); do_lower(&lc, out); }
         Some("lw.enum") => { let lc = REPLAY_CASE.with(|c| c.borrow().clone()); do_enum(&lc, out); }
+        Some("lw.prune") => { let lc = REPLAY_CASE.with(|c| c.borrow().clone()); do_prune(&lc, out); }
+        Some("lw.solve") => { let lc = REPLAY_CASE.with(|c| c.borrow().clone()); do_solve(&lc, out); }
         _ => { out.emit(line, "bad-op"); }
     }
 }
